@@ -758,6 +758,16 @@ class TenSym(PySym):
             if abs(vn) < 1e-9 * max(1.0, abs(vd)) or abs(vd) < 1e-12:
                 raise Unsupported("comparison too close to call numerically")
             return 1 if (vn > 0) == (vd > 0) else -1
+        if isinstance(d, Rat) and self.positive:
+            # all terms of numerator and denominator have coefficients of one sign over symbols assumed positive
+            def sg(p):
+                if p.is_zero() or not all(v in self.positive for v in p.vars()):
+                    return None
+                ss = {(cf > 0) - (cf < 0) for cf in p.t.values()}
+                return ss.pop() if len(ss) == 1 else None
+            sn, sd = sg(d.n), sg(d.d)
+            if sn is not None and sd is not None:
+                return sn * sd
         raise Unsupported("sign of a symbolic quantity")
 
     def compare(self, op, a, b, n=None):
@@ -1176,7 +1186,16 @@ class TenSym(PySym):
                 raise Unsupported("einsum with computed subscripts")
             return self.unwrap(einsum(spec, [self.to_ten(self.ex(a)) for a in n.args[1:]]))
         if cn in ("np.arange",):
-            args_ = [self.concrete(self.ex(a)) for a in n.args]
+            raw_ = [self.lift(self.ex(a)) for a in n.args]
+            try:
+                args_ = [self.concrete(v_) for v_ in raw_]
+            except Unsupported:
+                # arange(start, stop, step) with a symbolic positive step: the count k with stop - start == k*step
+                if len(raw_) == 3 and all(isinstance(v_, Rat) for v_ in raw_) and self.sign(raw_[2]) == 1:
+                    for k_ in range(0, 65):
+                        if (raw_[1] - raw_[0] - raw_[2] * Rat(Poly.const(k_))).n.is_zero():
+                            return Ten((k_,), [raw_[0] + raw_[2] * Rat(Poly.const(i)) for i in range(k_)])
+                raise
             return Ten((len(range(*args_)),), [Rat(Poly.const(i)) for i in range(*args_)])
         if cn in ("np.full",):
             shp = self.shape_arg(self.kw(n, "shape", 0))
